@@ -37,6 +37,11 @@ def main():
                                            allow_missing=[False], out_sim_score=[True, False],
                                            out_attrs=[(None, None)], n_jobs=[1, 2], extra_col=[False],
                                            bound_method=[False, True])))
+    # uncached path with three candidate rows (tables large enough), missing values on the left only
+    ck.e2('uncached-3rows', h_cand.make(dict(base, nl=3, nr=3, k=1, kmin=1, ncand=[3], missing='sym', missing_r=False,
+                                             tokenizer=[True], comp_ops=['>='], allow_missing=[True],
+                                             out_sim_score=[True], out_attrs=[(None, None)], n_jobs=[1],
+                                             extra_col=[False], bound_method=[False])))
     # both paths, splitting, projection, extra columns, arbitrary index labels
     ck.e2('split-projection', h_cand.make(dict(base, nl=2, nr=1, ncand=[2, 3], missing='sym',
                                                tokenizer=[True, False], comp_ops=['>=', '<'],
